@@ -77,3 +77,4 @@ Proof.
   destruct (ssa_model (mk_fun ops outs)) as [f'|e|]; [|discriminate Hp|discriminate Hp].
   exists f'. split; [reflexivity|exact Hp].
 Qed.
+Print Assumptions ssa_model_passes_small.
